@@ -990,6 +990,38 @@ def normalise_matches(body):
                 chain = {"k": "If", "c": cond, "t": blockify(bodyx), "e": chain if chain.get("k") == "If" else chain, "ty": n.get("ty"), "sp": a["body"].get("sp")}
         return {"k": "Block", "stmts": [let], "expr": chain, "ty": n.get("ty"), "sp": n.get("sp"), "_from_match": True}
 
+    def rewrite_try_match(n):
+        """`match e { Ok(v) => v, Err(x) => return Err(G(x)) }` is `e.map_err(|x| G(x))?` (the spelled-out `?`)."""
+        arms = n.get("arms") or []
+        if len(arms) != 2 or any("guard" in a for a in arms):
+            return None
+        okarm = [a for a in arms if (a["pat"].get("def") or "").split("::")[-1] == "Ok" and a["pat"].get("k") == "PTupleStruct" and len(a["pat"].get("ps", [])) == 1]
+        errarm = [a for a in arms if (a["pat"].get("def") or "").split("::")[-1] == "Err" and a["pat"].get("k") == "PTupleStruct" and len(a["pat"].get("ps", [])) == 1]
+        if len(okarm) != 1 or len(errarm) != 1:
+            return None
+        pv, px = okarm[0]["pat"]["ps"][0], errarm[0]["pat"]["ps"][0]
+        if pv.get("k") != "Bind" or px.get("k") != "Bind":
+            return None
+        bv = okarm[0]["body"]
+        while isinstance(bv, dict) and bv.get("k") == "Block" and not bv.get("stmts") and bv.get("expr") is not None:
+            bv = bv["expr"]
+        if not (isinstance(bv, dict) and bv.get("k") == "Local" and bv.get("id") == pv["id"]):
+            return None
+        be = errarm[0]["body"]
+        while isinstance(be, dict) and be.get("k") == "Block" and not be.get("stmts") and be.get("expr") is not None:
+            be = be["expr"]
+        if isinstance(be, dict) and be.get("k") == "Block" and len(be.get("stmts") or []) == 1 and be.get("expr") is None and be["stmts"][0].get("k") in ("ExprS", "Semi"):
+            be = be["stmts"][0]["e"]
+        if not (isinstance(be, dict) and be.get("k") == "Ret" and isinstance(be.get("e"), dict)):
+            return None
+        r = be["e"]
+        if not (r.get("k") == "Call" and (callee(r) or "").split("::")[-1] == "Err" and len(r.get("args", [])) == 1):
+            return None
+        g = r["args"][0]
+        closure = {"k": "Closure", "params": [px], "body": g, "ty": "closure", "sp": g.get("sp")}
+        me = {"k": "MCall", "name": "map_err", "recv": n["e"], "args": [closure], "def": "std::result::Result::<T, E>::map_err", "ty": n["e"].get("ty"), "sp": n.get("sp")}
+        return {"k": "Try", "e": me, "ty": n.get("ty"), "sp": n.get("sp")}
+
     def rewrite_then(n):
         # recv.ok_or(E) / recv.ok_or_else(|| E) with recv = cond.then(|| V) / cond.then_some(V)
         if n.get("k") != "MCall" or n["name"] not in ("ok_or", "ok_or_else") or len(n.get("args", [])) != 1:
@@ -1024,6 +1056,9 @@ def normalise_matches(body):
             if isinstance(v, (dict, list)):
                 n[k] = visit(v)
         if n.get("k") == "Match":
+            r = rewrite_try_match(n)
+            if r is not None:
+                return r
             r = rewrite_match(n)
             if r is not None:
                 return r
